@@ -59,6 +59,9 @@ pub enum Corner {
     /// one long chain through all nodes, each link through a wrapper that
     /// adds registry entries of its own: nesting ~100 deep under one root
     DeepChain,
+    /// hundreds of roots: registries with more than 256 and more than 1000
+    /// entries (ids in the two-byte compact class, tables past size thresholds)
+    Big,
 }
 
 #[derive(Clone, PartialEq, Eq, Debug, Hash, Serialize, Deserialize)]
@@ -198,6 +201,7 @@ pub fn gen_cfg(rng: &mut Rng) -> RegCfg {
         3 => Corner::AllSame,
         4..=7 => Corner::AliasStorm,
         8 | 9 => Corner::DeepChain,
+        10 if rng.permille(500) => Corner::Big,
         _ => Corner::None,
     };
     let active = match rng.below(10) {
@@ -243,7 +247,12 @@ pub fn gen_perm(rng: &mut Rng) -> Vec<u8> {
 }
 
 fn corpus_ref(rng: &mut Rng) -> TyRef {
-    TyRef::corpus(rng.usize_below(CORPUS.len()))
+    // the last entries nest hundreds of levels deep: rare
+    let light = crate::corpus::heavy_from();
+    if rng.permille(6) {
+        return TyRef::corpus(light + rng.usize_below(CORPUS.len() - light));
+    }
+    TyRef::corpus(rng.usize_below(light))
 }
 
 /// A reference from node `from` (or from a client when `from == None`).
@@ -526,6 +535,7 @@ pub fn generate(rng: &mut Rng) -> RegScenario {
             c.active = K as u8;
             c.cycle_bias = c.cycle_bias.min(300);
         }
+        Corner::Big => c.active = K as u8,
         Corner::AliasStorm => {
             c.alias_bias = 900;
             c.repeat_bias = 700;
@@ -568,6 +578,17 @@ pub fn generate(rng: &mut Rng) -> RegScenario {
     }
     if c.corner == Corner::DeepChain {
         msgs.insert(0, (0, Req::Register(TyRef::bare(0))));
+    }
+    if c.corner == Corner::Big {
+        let batches = rng.range(10, 60);
+        for _ in 0..batches {
+            let n = rng.range(25, 40);
+            let refs: Vec<TyRef> = (0..n)
+                .map(|_| TyRef { w: *rng.pick(ALL_W), n: rng.below(K as u64) as u8 })
+                .collect();
+            let at = rng.usize_below(msgs.len() + 1);
+            msgs.insert(at, (rng.below(c.clients as u64) as u8, Req::RegisterMany(refs)));
+        }
     }
     let owner = network(rng, &c, &msgs);
     // the replica receives the same multiset of messages (duplicates
